@@ -112,7 +112,13 @@ func (la *lockAnalysis) lockOp(in ssa.Instruction) (key lockKey, acquire bool, d
 		return "", false, false, false
 	}
 	_, deferred = in.(*ssa.Defer)
-	return lockKey(owner + "." + path), acquire, deferred, true
+	// the read side of an RWMutex is a lock of its own: it admits other readers, so it
+	// protects reads only
+	mode := ""
+	if f.Name() == "RLock" || f.Name() == "RUnlock" {
+		mode = "#r"
+	}
+	return lockKey(owner + "." + path + mode), acquire, deferred, true
 }
 
 func copySet(s map[lockKey]bool) map[lockKey]bool {
@@ -399,10 +405,22 @@ func checkC02(w *World, r *Report) {
 			continue
 		}
 		ok := false
+		readOnly := false
 		for _, l := range locks {
 			if held[l] {
 				ok = true
 			}
+			if held[l+"#r"] {
+				if a.write {
+					readOnly = true
+				} else {
+					ok = true
+				}
+			}
+		}
+		if !ok && readOnly {
+			r.bad("R02.1", ssaName(a.fn), construct, pos, fmt.Sprintf("written while only the read side of %v is held (RLock admits other readers and other holders of the read lock): two goroutines can modify, or read and modify, the location at the same time — Go maps fail with 'concurrent map writes'", locks))
+			continue
 		}
 		if ok {
 			r.ok("R02.1", ssaName(a.fn), construct, pos, "owner lock "+string(locks[0])+" held", true)
